@@ -3,5 +3,5 @@
 Require Extraction.
 Require Import ExtrOcamlBasic.
 From SWH.model Require Import Codec.
-Extraction "extract/C12/model.ml" construct_x to_dict_x from_dict_x from_dict_old_x fd_BaseContent_x
+Extraction "extract/C12/model.ml" construct_x to_dict_x from_dict_x from_dict_old_x fd_BaseContent_x from_dict_xd fd_BaseContent_xd
   as_kwargs schema members elided all_classes.
